@@ -3,6 +3,7 @@
   iteration bound; the chosen operation is the best one; early stop means local optimum.
 -/
 import PgmVerif.Proofs.Acyclic
+import PgmVerif.Model.Generated
 import PgmVerif.Model.Search
 import Mathlib.Algebra.Order.Field.Rat
 import Mathlib.Tactic.Ring
@@ -524,5 +525,10 @@ theorem C11_hc_monotone (s : ScoreTab) (o : HCOpts) (heps : 0 ≤ o.eps) : ∀ (
 /-- non-vacuity: the empty start graph meets the hypotheses of `C11_hc_acyclic` -/
 example : (DG.mk [0, 1, 2] []).WFG ∧ Acyclic (DG.mk [0, 1, 2] []).edges :=
   ⟨fun e he => (by cases he), acyclic_nil⟩
+
+/-- extraction tie: the defaults of `HillClimbSearch.estimate` (epsilon 1e-4, max_iter 1e6, tabu_length 100) under which the
+    black-box streams run the implementation are the ones read from the source -/
+theorem C11_defaults_tie :
+    Generated.hcDefaults = [("epsilon", 1, 10000), ("max_iter", 1000000, 1), ("tabu_length", 100, 1)] := by decide
 
 end PgmVerif
